@@ -146,7 +146,11 @@ def oracle_pit(case) -> Result:
     bigger = {k: v * (1 + torch.rand(v.shape, generator=ng._gen(case['vseed'], 'q/' + k)))
               + torch.sign(v) * 0.05 for k, v in vals.items()}
     nas_ids = {id(p) for p in pit.nas_parameters()}
-    trainable = [(n, p) for n, p in pit.named_nas_parameters() if p.requires_grad]
+    # masks frozen by construction are not search variables (their value is read detached)
+    frozen_ids = {id(p) for m in pit.modules() if type(m).__name__.startswith('PITFrozen')
+                  for p in m.parameters(recurse=False)}
+    trainable = [(n, p) for n, p in pit.named_nas_parameters()
+                 if p.requires_grad and id(p) not in frozen_ids]
     checked_fd = 0
     for name in names:
         for disc in (False, True):
@@ -379,15 +383,23 @@ def oracle_mps(case) -> Result:
             pick = ng._gen(case['aseed'], 'pick')
             for (qn, a), g in list(zip(alphas, gs))[:6]:
                 i = int(torch.randint(0, a.numel(), (1,), generator=pick))
+                old = float(a.detach().view(-1)[i])
                 with torch.no_grad():
-                    a.view(-1)[i] += 0.05
+                    a.view(-1)[i] = old + 0.05
                 mps(x)
                 c2 = float(get(name))
+                # 'its increase raises the metric' must not be rounding jitter of a cost model
+                # that rounds to whole cycles: a ten times larger increase must raise it as well
                 with torch.no_grad():
-                    a.view(-1)[i] -= 0.05
+                    a.view(-1)[i] = old + 0.5
+                mps(x)
+                c2b = float(get(name))
+                with torch.no_grad():
+                    a.view(-1)[i] = old
                 fd += 1
                 gi = 0.0 if g is None else float(g.flatten()[i])
-                if c2 - cf > 1e-5 * max(1.0, cf) and gi == 0.0:
+                tol = 1e-5 * max(1.0, cf)
+                if c2 - cf > tol and c2b - cf > tol and gi == 0.0:
                     res.bad('zero-gradient-although-raising-the-coefficient-raises-the-cost',
                             metric=name, selector=qn, index=i, cost=cf, cost_after=c2)
         mps(x)
